@@ -72,7 +72,7 @@ def pair_distances(dist_self):
 def safe_radius(all_d, target, rel, fallback=1.0):
     """A radius close to `target` that is NOT within `rel` (relative) of any pairwise distance:
     `all_d` = ascending distinct positive pairwise distances; the result is the midpoint of the first gap
-    between consecutive distances at or above `target` whose relative width exceeds 4*rel (half the
+    between consecutive distances above `target` whose relative width exceeds 4*rel (half the
     smallest / 1.5 times the largest distance at the two ends)."""
     d = np.asarray(all_d, dtype=np.float64)
     if d.size == 0:
@@ -81,7 +81,7 @@ def safe_radius(all_d, target, rel, fallback=1.0):
     hi = np.concatenate([d, [d[-1] * 1.5]])
     ok = (hi - lo) > 4 * rel * hi
     ok[-1] = True
-    m = int(np.searchsorted(d, target, side="left"))   # d[m-1] < target <= d[m]
+    m = int(np.searchsorted(d, target, side="right"))  # d[m-1] <= target < d[m]
     m = m + int(np.nonzero(ok[m:])[0][0])
     if m == 0:
         return float(lo[0])
